@@ -819,6 +819,14 @@ def _uf1(F, pyf, axiom=None):
 
 
 log = _uf1(UF_LOG, _math.log, lambda x, r: z3.Implies(x > 0, UF_EXP(r) == x))
+def log1p(x):
+    return log(x + 1)
+
+
+def expm1(x):
+    return exp(x) - 1
+
+
 exp = _uf1(UF_EXP, _math.exp, lambda x, r: z3.And(r > 0, UF_LOG(r) == x))
 cos = _uf1(UF_COS, _math.cos)
 sin = _uf1(UF_SIN, _math.sin)
